@@ -12,6 +12,8 @@ def spec(tier):
     obs += [XH("T.chains", F, "chains", 200 if q else 600, what="15 '%' chains x 3 statement forms: own, inherited (1 and 2 EXTENDS levels), nested-type, pointer-component and array-element components")]
     obs += parts("X.inherit_orders", "C05_resolve.py", "inherit_orders", 8, 250 if tier == "quick" else 900,
                  what="three-level EXTENDS chain (abstract base with a deferred binding, abstract intermediate, concrete leaf) in three files plus a user, indexed in all 24 file orders by the real workspace_init and by opening the files one by one: components / bindings of every level resolve through obj%, completion after obj% offers exactly all of them, the leaf's unimplemented deferred binding is reported")
+    obs += [XH("X.forms", F, "forms", 200 if tier == "quick" else 600,
+               what="further USE-association forms: two renaming USE statements of one module in either order (all renamed and plain names resolve), PUBLIC/PRIVATE statements spelled in another letter case than the declaration (the private entity is not reachable, the host's is found); files indexed in both orders")]
     return dict(
         obligations=obs,
         functions=["find_in_scope", "get_use_tree", "climb_type_tree", "Variable.get_type_obj", "Type.resolve_inherit", "FortranAST.get_inner_scope",
